@@ -60,7 +60,7 @@ def trace_cfg():
     return cfg(MECH, ["Accepted"] + INVS, 3, spec="TSpec")
 
 
-def run(ctx):
+def _run(ctx):
     tdgl = core.import_tdgl()
     trin = 2 if ctx.quick else 3
     # ---------------------------------------------------------------- 1. the model
@@ -305,10 +305,18 @@ def run(ctx):
         ttr.append({"tol": 5, "minruns": 3, "ev": ev_reload, "label": label + " / saved after the edit and reloaded"})
         ctx.note_case((label,), True)
     acc = twin.validate_twin(ctx, ttr, "C08")
-    if acc:
-        n = sorted(acc)[0]
+    def repeated(tr):       # events whose key was observed before in the same trace (a later observation that must agree)
+        seen, out = set(), []
+        for e in tr["ev"]:
+            if e["key"] in seen and e["q"]:
+                out.append(e)
+            seen.add(e["key"])
+        return out
+    cands = [n for n in sorted(acc) if repeated(ttr[n])]
+    if cands:
+        n = cands[0]
         bad = copy.deepcopy(ttr[n])
-        victim = [e for e in bad["ev"] if e["key"].endswith("current_density[A/m]")][-1]
+        victim = repeated(bad)[-1]
         j = max(range(len(victim["q"])), key=lambda i: abs(victim["q"][i]))
         victim["q"][j] += bad["tol"] + 20
         a2, _ = ctx.validate_traces("Twin", [{"tol": bad["tol"], "minruns": 2, "ev": bad["ev"]}], twin.twin_cfg(), name="canary[C08 runs]", count=False)
@@ -323,3 +331,21 @@ def run(ctx):
                        "three (thorough: five) unit systems; non-trivial = every solver / triangle / run with >= 2 frames; distinct = distinct unit systems, triangles, runs")
     ctx.assume("the numeric values of Phi_0 and mu_0 are taken from the code's own unit registry (inputs, not under test)")
     ctx.assume("the twins share one dimensionless mesh: meshing an outline expressed in other units yields a different triangulation (Triangle), which is not unit handling")
+
+
+def run(ctx):
+    """A problem of the harness on a tree that has already been refuted must not turn the verdict into a machinery failure:
+    violations recorded so far stand (exit 1); without any violation the problem is reported as what it is (exit 2)."""
+    import traceback
+
+    from harness import core as _core
+    try:
+        _run(ctx)
+    except _core.MachineryFailure as e:
+        if not ctx.violations:
+            raise
+        ctx.cov["machinery_problem_after_violations"] = str(e)[:500]
+    except Exception:
+        if not ctx.violations:
+            raise
+        ctx.cov["machinery_problem_after_violations"] = traceback.format_exc()[-800:]
